@@ -1197,7 +1197,9 @@ pub fn run_program(prog: &Value, w: &mut dyn std::io::Write) -> u64 {
         let mut ev = Map::new();
         let unmount_fault = fault.as_ref().filter(|f| f["at"].as_i64() == Some(pc as i64 - 1) && end != End::Finish);
         if let Some(f) = unmount_fault {
-            dev.0.borrow_mut().fault_at = f["k"].as_u64();
+            let mut d = dev.0.borrow_mut();
+            d.fault_at = f["k"].as_u64();
+            d.fault_sticky = f.get("sticky").and_then(Value::as_bool) == Some(true);
         }
         match end {
             End::Unmount => {
@@ -1224,9 +1226,11 @@ pub fn run_program(prog: &Value, w: &mut dyn std::io::Write) -> u64 {
             }
         }
         dev.0.borrow_mut().fault_at = None;
+        dev.0.borrow_mut().fault_sticky = false;
         finish_event(&mut ev, &dev, &geo, &cfg, &dopts, &mut out, None, &clock);
         out.emit(ev);
-        if end == End::Finish || stop_after || dev.0.borrow().fault_hit.is_some() {
+        let go_on = fault.as_ref().and_then(|f| f.get("continue")).and_then(Value::as_bool) == Some(true);
+        if end == End::Finish || stop_after || (dev.0.borrow().fault_hit.is_some() && !go_on) {
             break;
         }
         // optional harness-side modification of the unmounted image ("someone else touched the volume")
